@@ -21,16 +21,20 @@ rule it out, so for c != 0 both values are accepted; the count of configurations
 which the implementation reports extent + c is recorded in the evidence notes.  For
 c == 0 both readings coincide and exactly one value is accepted.
 
-Self-test (mutants of the anchored functions in a scratch copy, VERIF_REPO=/tmp/af-mut-c24):
-see SELFTEST block at the bottom of this docstring (filled in after running them).
-
-SELFTEST
-  M1 _isl.py:get_dim_bounds  `shape = max_val - min_val + 1` -> `max_val - min_val`      : caught (family bounds)
-  M2 _isl.py:get_tensor_size `if data_space.is_box()` -> `if True` (bounding box used
-     for strided / skewed images)                                                       : caught (family size-nonbox-wrong-count)
-  M3 _symbolic.py:get_stride_and_halo_of_einsum `shape[rank_var] = 1` -> `= 2`           : caught (family halo)
-  M4 _symbolic.py `stride = rank_projection.coeff(rank_var)` -> coeff of the first var   : caught (family stride)
-  M5 _isl.py:_card_box `dims.append(max_val - min_val + 1)` -> `max_val + 1`             : caught (family size-box-wrong; needs c != 0)
+SELFTEST (scratch copy /tmp/af-mut-c24 of accelforge/, VERIF_REPO, quick tier = 15070 configurations; copy
+deleted afterwards)
+  M1 _isl.py:get_dim_bounds  `shape = max_val - min_val + 1` -> `max_val - min_val`     caught  bounds (15070 cfgs)
+  M2 _isl.py:get_tensor_size `if data_space.is_box():` -> `if True:` (bounding box
+     returned for strided / skewed images)                                              caught  size-nonbox-wrong-count/{1,2}rank (7984)
+  M3 _symbolic.py:get_stride_and_halo_of_einsum `shape[rank_var] = 1` -> `= 2`          caught  halo/c0 (15070)
+  M4 _symbolic.py `stride = rank_projection.coeff(rank_var)` -> coeff of the
+     alphabetically first variable of the rank                                          caught  stride (4896)
+  M5 _isl.py:_card_box `dims.append(max_val - min_val + 1)` -> `max_val + 1`            caught  size-box-wrong/{1,2}rank (3861; needs c != 0)
+  M6 _symbolic.py halo reduced by (stride - 1)                                          caught  halo/c0 (7291; needs coefficient 2)
+  M7 _isl.py:get_tensor_data_space `.intersect(` -> `.union(` (read-only tensor shared
+     by Einsums)                                                                        MISSED  known gap: when the Einsums' images of a
+     shared read-only tensor differ the statement does not say which image is "the" tensor, so its size is not
+     compared; when they agree union == intersection.
 """
 
 from __future__ import annotations
@@ -250,15 +254,17 @@ def observe(cfg):
             if t not in tensors:
                 tensors.append(t)
     obs["n_computes"]["*"] = _num_or_str(_call(wl.n_computes))
-    allsh = _call(sh_all_fn, wl)
-    if isinstance(allsh, str):
-        obs["sh_all"] = allsh
-    else:
-        regroup = {}
-        for (en, tn), pairs in allsh.items():
-            regroup.setdefault(str(en), {})[tn] = pairs
-        obs["sh_all"] = {en: _sh_json(d) for en, d in regroup.items()}
-    n_calls += 2
+    n_calls += 1
+    if len(cfg["einsums"]) > 1:  # the workload-level aggregation is only interesting for several Einsums
+        allsh = _call(sh_all_fn, wl)
+        if isinstance(allsh, str):
+            obs["sh_all"] = allsh
+        else:
+            regroup = {}
+            for (en, tn), pairs in allsh.items():
+                regroup.setdefault(str(en), {})[tn] = pairs
+            obs["sh_all"] = {en: _sh_json(d) for en, d in regroup.items()}
+        n_calls += 1
     for t in tensors:
         obs["size"][t] = _num_or_str(_call(wl.get_tensor_size, t))
         n_calls += 1
@@ -310,6 +316,8 @@ def compare(cfg, exp, obs):
                 return viol(f"size-nonbox-wrong-count/{nranks}rank", o, f"{es['n']} or an exception",
                             f"size of {t}: image is not a box"), classes
     for key in ("sh", "sh_all"):
+        if key not in obs:
+            continue
         for en, et in exp["sh"].items():
             ot = obs[key].get(en) if isinstance(obs[key], dict) else obs[key]
             if isinstance(ot, str) or ot is None:
@@ -443,50 +451,45 @@ def two_probes(n):  # three tensors: identity + two probes of one rank each
 def define_families(q):
     FAMILIES.clear()
     B = (1, 2, 3) if q else (1, 2, 3, 4, 5, 6)
-    IN, BOTH = ["probe_in"], ["probe_in", "probe_out"]
+    IN, OUT, BOTH = ["probe_in"], ["probe_out"], ["probe_in", "probe_out"]
+    EI, RS = ["einsum_iss"], ["workload_rank_sizes"]
 
     def add(*a, **k):
         f = Family(*a, **k)
         FAMILIES[f.name] = f
 
-    # A: 1-2 rank variables, one probe tensor of 1-2 ranks
+    def two_rank(n):
+        return [((f, g),) for f in forms(n) for g in forms(n)]
+
+    def two_rank_3v(n):  # first rank: any c=0 form; second rank: coefficients from {0,1}
+        return [((f, g),) for f in forms(n, consts=(0,)) for g in forms(n, coeff_alpha=(0, 1), consts=(0,))]
+
     if q:
+        # A: 1-2 rank variables, one probe tensor of 1-2 ranks
         add("one-probe-1rank", "single", STYLES, IN, bvecs((1, 2), B), one_probe_1rank)
-        add("one-probe-2rank", "single", ["einsum_iss", "workload_rank_sizes"], IN, bvecs((1, 2), B),
-            lambda n: [((f, g),) for f in forms(n) for g in forms(n)])
-        add("one-probe-out-1rank", "single", ["einsum_iss"], ["probe_out"], bvecs((1, 2), B), one_probe_1rank)
-        add("one-probe-out-2rank", "single", ["einsum_iss"], ["probe_out"], bvecs((1, 2), (2, 3)),
-            lambda n: [((f, g),) for f in forms(n) for g in forms(n)])
-    else:
-        add("one-probe", "single", STYLES, BOTH, bvecs((1, 2), B), one_probe)
-    # B: three rank variables
-    if q:
-        add("three-vars-1rank", "single", ["einsum_iss"], IN, bvecs((3,), (1, 2, 3)), one_probe_1rank)
-        add("three-vars-2rank", "single", ["einsum_iss"], IN, bvecs((3,), (2, 3)), one_probe_2rank_c0)
-    else:
-        add("three-vars", "single", ["einsum_iss", "workload_rank_sizes"], IN, bvecs((3,), (1, 2, 3)), one_probe)
-        add("three-vars-b4", "single", ["einsum_iss"], IN,
-            [bv for bv in bvecs((3,), (1, 2, 4, 6)) if max(bv) > 3],
-            lambda n: one_probe_1rank(n) + one_probe_2rank_c0(n))
-    # C: three tensors
-    if q:
-        add("two-probes", "single", ["einsum_iss"], IN, bvecs((2,), (1, 2, 3)), two_probes)
-        add("two-probes-out", "single", ["einsum_iss"], ["probe_out"], bvecs((2,), (2, 3)), two_probes)
-    else:
-        add("two-probes", "single", STYLES, BOTH, bvecs((2,), (1, 2, 3)), two_probes)
-    # D: chains of Einsums sharing a read-only tensor and passing identity intermediates
-    if q:
-        add("chain-2", "chain", ["einsum_iss"], IN, bvecs((1, 2), (1, 2, 3)), lambda n: forms(n), n_levels=2)
-        add("chain-2-rs", "chain", ["workload_rank_sizes"], IN, bvecs((2,), (2, 3)), lambda n: forms(n), n_levels=2)
-    else:
-        add("chain-2", "chain", ["einsum_iss", "workload_rank_sizes"], IN, bvecs((1, 2), (1, 2, 3)),
-            lambda n: forms(n), n_levels=2)
-    if q:
-        add("chain-3", "chain", ["einsum_iss"], IN, bvecs((2,), (2, 3)),
+        add("one-probe-2rank", "single", EI, IN, bvecs((1, 2), B), two_rank)
+        add("one-probe-2rank-rs", "single", RS, IN, bvecs((1, 2), (2, 3)), two_rank)
+        add("one-probe-out-1rank", "single", EI, OUT, bvecs((1, 2), B), one_probe_1rank)
+        add("one-probe-out-2rank", "single", EI, OUT, bvecs((1, 2), (2, 3)), two_rank)
+        # B: three rank variables
+        add("three-vars-1rank", "single", EI, IN, bvecs((3,), (1, 2, 3)), one_probe_1rank)
+        add("three-vars-2rank", "single", EI, IN, bvecs((3,), (2, 3)), two_rank_3v)
+        # C: three tensors (identity + two probes of one rank each)
+        add("two-probes", "single", EI, IN, bvecs((2,), (1, 2, 3)), two_probes)
+        add("two-probes-out", "single", EI, OUT, [(2, 3)], two_probes)
+        # D: chains of Einsums sharing a read-only tensor and passing identity intermediates
+        add("chain-2", "chain", EI, IN, bvecs((1,), (1, 2, 3)) + bvecs((2,), (2, 3)), lambda n: forms(n), n_levels=2)
+        add("chain-2-rs", "chain", RS, IN, [(2, 3)], lambda n: forms(n), n_levels=2)
+        add("chain-3", "chain", EI, IN, bvecs((2,), (2, 3)),
             lambda n: forms(n, consts=(0,), coeff_alpha=(1, 2)), n_levels=3)
     else:
-        add("chain-3", "chain", ["einsum_iss", "workload_rank_sizes"], IN, bvecs((1, 2), (1, 2, 3)),
-            lambda n: forms(n, consts=(0,)), n_levels=3)
+        add("one-probe", "single", STYLES, BOTH, bvecs((1, 2), B), one_probe)
+        add("three-vars", "single", EI + RS, IN, bvecs((3,), (1, 2, 3)), one_probe)
+        add("three-vars-b4", "single", EI, IN, [bv for bv in bvecs((3,), (1, 2, 4, 6)) if max(bv) > 3],
+            lambda n: one_probe_1rank(n) + one_probe_2rank_c0(n))
+        add("two-probes", "single", STYLES, BOTH, bvecs((2,), (1, 2, 3)), two_probes)
+        add("chain-2", "chain", EI + RS, IN, bvecs((1, 2), (1, 2, 3)), lambda n: forms(n), n_levels=2)
+        add("chain-3", "chain", EI + RS, IN, bvecs((1, 2), (1, 2, 3)), lambda n: forms(n, consts=(0,)), n_levels=3)
     return B
 
 
@@ -505,7 +508,7 @@ def run(ctx):
               styles=STYLES,
               families={k: {"styles": f.styles, "roles": f.roles, "n_bound_vectors": len(f.bound_vectors),
                             "levels": f.n_levels} for k, f in FAMILIES.items()},
-              three_var_bounds="{1,2,3}^3 (1 rank) / {2,3}^3 (2 ranks, c=0)" if q else
+              three_var_bounds="{1,2,3}^3 (1 rank, all forms) / {2,3}^3 (2 ranks: any c=0 form x coefficients {0,1})" if q else
               "{1,2,3}^3 all probes, two styles; {1,2,4,6}^3 with max>3, 1 rank all forms / 2 ranks c=0")
     tot = ctx.total.outcome_classes
     n_off = sum(v for k, v in tot.items() if "halo=extent+const" in k)
